@@ -78,6 +78,7 @@ void do_blocks(CallCtx &cx, int block)
   case 1: do_blocks_b<I, 1>(cx); break;
   case 3: do_blocks_b<I, 3>(cx); break;
   case 16: do_blocks_b<I, 16>(cx); break;
+  case 300: do_blocks_b<I, 300>(cx); break;  // more than an unsigned char can hold
   default: do_blocks_b<I, 64>(cx); break;
   }
 }
